@@ -38,6 +38,28 @@ def sources(ctx, prefix='C20'):
     ctx.rule(f'{prefix}.BLOCKSOURCE', lambda: c07.rule_flushnotify(ctx), 4)
     ctx.rule(f'{prefix}.MEMPOOLSOURCE', lambda: c09.rule_refresh_handover(ctx, f'{prefix}.MEMPOOLSOURCE'), 3)
     ctx.rule(f'{prefix}.HEIGHTQUERY', lambda: rule_height_query(ctx, f'{prefix}.HEIGHTQUERY'), 1)
+    ctx.rule(f'{prefix}.STARTHEIGHT', lambda: rule_start_height(ctx, f'{prefix}.STARTHEIGHT'), 1)
+
+
+def rule_start_height(ctx, rule):
+    """The join is seeded with the height both sources can answer for: the *flushed* DB height.  The block processor's
+    in-memory height can be ahead of it (blocks processed but not flushed when serving starts); seeded with that, the first
+    notification announces a height clients cannot query yet."""
+    st = ctx.func('ctl', 'Notifications.start')
+    n = 0
+    for f in ctx.repo.funcs.values():
+        for c in q.own_calls(f):
+            t = ctx.res.resolve_ref(c.func, f)
+            named = isinstance(c.func, ast.Attribute) and c.func.attr == 'start' and norm(c.func.value).split('.')[-1] == 'notifications'
+            if not ((t is not None and t.key == st.key) or named) or not c.args:
+                continue
+            n += 1
+            src = ctx.res.canon(c.args[0], f) or norm(c.args[0])
+            ctx.check(src == 'self.db.state.height', rule, ctx.key(f, q.stmt(c), 'seeded with the flushed height'),
+                      'notifications start from the flushed DB height',
+                      f'notifications start from `{norm(c.args[0])}`, not from the flushed DB height self.db.state.height',
+                      loc=ctx.loc(f, c))
+    return n
 
 
 def rule_height_query(ctx, rule):
@@ -84,6 +106,20 @@ def _run(ctx):
         hvar = cands[0]
 
     # ------------------------------------------------------------------ NODROP
+    def pend(e, f_):
+        """the pending container an expression denotes: directly, or as the variable of a loop over a display of them
+        (`for pending in (self._touched_mp, self._touched_bp): ...`)"""
+        c_ = ctx.res.canon(e, f_)
+        if c_ in PENDING:
+            return c_
+        if isinstance(e, ast.Name):
+            for lp_ in f_.own_nodes():
+                if isinstance(lp_, (ast.For, ast.comprehension)) and isinstance(lp_.target, ast.Name) and lp_.target.id == e.id \
+                        and isinstance(lp_.iter, (ast.Tuple, ast.List)):
+                    hit = [ctx.res.canon(x, f_) for x in lp_.iter.elts if ctx.res.canon(x, f_) in PENDING]
+                    if hit:
+                        return hit[0]
+        return None
     n_sites = 0
     for f in funcs:
         if f.name == '__init__':
@@ -93,7 +129,7 @@ def _run(ctx):
             # removals / overwrites of the pending containers
             if isinstance(node, ast.Delete):
                 for t in node.targets:
-                    if isinstance(t, ast.Subscript) and ctx.res.canon(t.value, f) in PENDING:
+                    if isinstance(t, ast.Subscript) and pend(t.value, f):
                         n_sites += 1
                         ctx.bad('C20.NODROP', ctx.key(f, node),
                                 f'`{norm(node)}` discards a pending touched set: its script hashes are never notified',
@@ -120,8 +156,8 @@ def _run(ctx):
                         ctx.bad('C20.NODROP', ctx.key(f, node), 'pending container rebound outside __init__ (drops everything pending)',
                                 loc=ctx.loc(f, node))
             elif isinstance(node, ast.Call) and isinstance(node.func, ast.Attribute):
-                base = ctx.res.canon(node.func.value, f)
-                if base not in PENDING:
+                base = pend(node.func.value, f)
+                if base is None:
                     continue
                 meth = node.func.attr
                 if meth in ('clear', 'popitem'):
@@ -249,6 +285,21 @@ def _run(ctx):
         ctx.check(ok, 'C20.HEIGHT', ctx.key(mn, None, f'notified height: {label}'), 'notified height is agreed by both sources', why,
                   loc=ctx.loc(mn, ncall))
     ctx.floor('C20.HEIGHT', 2, n_h)
+    # NOSKIP: a path through _maybe_notify that does not notify is decided by the pending containers and the highest block
+    # alone - any other condition (a "busy" flag, a timer, a counter) leaves an agreed height unannounced until some later
+    # report happens to come along
+    allowed_reads = set(PENDING) | {'self._highest_block'}
+    for pth in P.paths(mn.node.body):
+        if any(st_ is q.stmt(ncall) for st_, _e in pth.events) or pth.exit == 'raise':
+            continue
+        foreign = sorted({ctx.res.canon(x, mn) or norm(x) for t, _pol, _n in pth.conds if isinstance(t, ast.expr) for x in ast.walk(t)
+                          if isinstance(x, ast.Attribute) and isinstance(x.value, ast.Name) and x.value.id == 'self'
+                          and (ctx.res.canon(x, mn) or norm(x)) not in allowed_reads})
+        if foreign:
+            ctx.bad('C20.NOSKIP', ctx.key(mn, None, 'skip decided by ' + ', '.join(foreign)),
+                    f'_maybe_notify can return without notifying under a condition on {foreign}: a height both sources agree on stays '
+                    'unannounced although nothing is missing', loc=ctx.loc(mn, pth.node or mn.node))
+    ctx.ok('C20.NOSKIP', ctx.key(mn, None, 'skips decided by the pending state'), 'every non-notifying path is decided by the pending containers / highest block')
     # every path to the notification defines the height (no other definition / fall-through)
     defnodes = {cfg.node(st) for st, _ in hdefs}
     p = pr.path_avoiding(cfg, [cfg.entry], [nnode], defnodes)
